@@ -83,6 +83,10 @@ func observeD(ds disjoint.Set) (o DObs, res string) {
 }
 
 func applyD(ds *disjoint.Set, a DAct, buf []int) (ret int, res string) {
+	// the buffered variants only need a buffer of capacity >= 1 (they append): capacities 1 and 2 are shorter than most paths
+	if c := []int{1, 2, 0}[(a.X+a.Y)%3]; c > 0 && c < len(buf) {
+		buf = make([]int, c)
+	}
 	res = obs.SafeT(2*time.Second, func() {
 		switch a.Op {
 		case "Find":
